@@ -1,7 +1,7 @@
 use lazy_static::lazy_static;
 use regex::Regex;
 
-use crate::delta::{State, StateMachine};
+use crate::delta::{DiffType, State, StateMachine};
 
 impl StateMachine<'_> {
     #[inline]
@@ -24,14 +24,37 @@ impl StateMachine<'_> {
                 && self.line.starts_with("+Subproject commit ")
     }
 
+    /// A "-Subproject commit" line that is not followed by its "+Subproject commit" twin (a
+    /// removed submodule): show the commit on its own instead of dropping the line. Called
+    /// before each line is handled, and at the end of input.
+    pub fn handle_pending_submodule_short_commit(&mut self, at_end: bool) -> std::io::Result<()> {
+        if let State::SubmoduleShort(Some(minus_commit)) = &self.state {
+            if at_end || !self.line.starts_with("+Subproject commit ") {
+                self.painter.emit()?;
+                writeln!(
+                    self.painter.writer,
+                    "{}..",
+                    self.config
+                        .minus_style
+                        .paint(minus_commit.chars().take(12).collect::<String>()),
+                )?;
+                self.state = State::HunkZero(DiffType::Unified, None);
+            }
+        }
+        Ok(())
+    }
+
     pub fn handle_submodule_short_line(&mut self) -> std::io::Result<bool> {
         if !self.test_submodule_short_line() || self.config.color_only {
             return Ok(false);
         }
         if let Some(commit) = get_submodule_short_commit(&self.line) {
             if let State::HunkHeader(_, _, _, _) = self.state {
-                self.state = State::SubmoduleShort(commit.to_owned());
-            } else if let State::SubmoduleShort(minus_commit) = &self.state {
+                self.state = State::SubmoduleShort(Some(commit.to_owned()));
+            } else if let State::SubmoduleShort(minus_commit) = &self.state.clone() {
+                let minus_commit = minus_commit.as_deref().unwrap_or("");
+                // (the pair is complete: nothing is pending any more)
+                self.state = State::SubmoduleShort(None);
                 self.painter.emit()?;
                 writeln!(
                     self.painter.writer,
